@@ -39,6 +39,9 @@ CHECKS = {
  "C16": ("TLC checks the notation design (263 action values, printing injective, square<->index<->bit conversions); every string up to length 3 (quick) / 4 (thorough) "
          "over a 28-symbol alphabet incl. non-ASCII is parsed by the real parsers under catch_unwind in two build profiles and the outcome compared with the "
          "declarative parser of Notation.tla; all values round-trip", "6.C16", "TLA+ notation spec + exhaustive bounded probe validated by TLC"),
+ "C17": ("Complete enumeration of the feature universe (234,311 single-feature pairs) realised on the real tables through public constructors, on the empty base and "
+         "random bases; HashTrace.tla checks that the groups are the universe of ArimaaHash.tla and that hashes are pairwise distinct", "6.C17",
+         "TLA+ feature universe + exhaustive probe validated by TLC"),
  "C19": ("Every public query and every listed action is called at every visited state under catch_unwind in a build with overflow checks; a panic is an event "
          "without a spec action, so the trace is rejected; TLC checks the invariants behind the explicit panic sites", "6.C19",
          "trace validation (panic = unmatched event) + TLA+ invariants"),
